@@ -198,7 +198,10 @@ func runDgesvd(t *vlib.T, m, n int, p prof, f family, ld [3]int, lw string) {
 				if n == 1 && m >= 1 && (lda > 1 || ldvt > 1) && strings.Contains(msg, "slice bounds out of range") {
 					finding(t, "dgesvd-n1-ld-gt1-slice-panic", "Dgesvd m=%d n=1 lda=%d ldvt=%d with minimum-length a and vt panics: %s [%s]", m, lda, ldvt, msg, ctx)
 				} else {
-					t.FailClass("unexpected-panic", "Dgesvd panicked: %s [%s lwork=%d]", msg, ctx, lwork)
+					failCall(t, "Dgesvd "+ctx, msg)
+					if strings.HasPrefix(msg, "HANG") {
+						return
+					}
 				}
 				continue
 			}
